@@ -249,9 +249,11 @@ def check_case(case):
         # perm[j] = fragment listed at position j
         pos = {f: j for j, f in enumerate(perm)}
         R = cgsmiles.MoleculeResolver
-        if how == 'graph':
+        if how in ('graph', 'graph-rev'):
             g = nx.Graph()
-            for j, f in enumerate(perm):
+            # 'graph-rev': the same base graph (same keys, names, edges) with its nodes INSERTED in descending key order --
+            # the numbering of the result is by node key, not by insertion order
+            for j, f in (list(enumerate(perm)) if how == 'graph' else list(enumerate(perm))[::-1]):
                 g.add_node(j, fragname='F%d' % f)
             for a, b in fedges:
                 g.add_edge(pos[a], pos[b], order=1)
@@ -267,7 +269,7 @@ def check_case(case):
     # the string form, in the order the writer produces (fragments in order of their first atom, depth first)
     ids = list(range(k))
     text, app = gr.render_graph(ids, [(a, b, 1) for a, b in fedges], {i: '[#F%d]' % i for i in ids})
-    jobs = [(perm, 'graph') for perm in perms] + [(tuple(app), '{' + text + '}.' + block)]
+    jobs = [(perm, 'graph') for perm in perms] + [(identity, 'graph-rev')] + [(tuple(app), '{' + text + '}.' + block)]
     for perm, how in jobs:
         try:
             results[(perm, how)] = run(perm, how)
@@ -283,7 +285,10 @@ def check_case(case):
         for clause, detail in probs:
             if clause in ('ez-relation', 'ez-annotation-missing', 'ez-annotation-unexpected', 'exception'):
                 cls = _cut_class(mol, cuts, wrong)
-                if clause in ('ez-relation', 'exception') and ident_ok and perm != identity and expected:
+                if clause in ('ez-relation', 'exception') and ident_ok and how == 'graph-rev' and expected:
+                    # same keys, names and edges as the construction order; only the order of INSERTION of the nodes differs
+                    sig = 'resolve/ez-depends-on-insertion-order/' + cls
+                elif clause in ('ez-relation', 'exception') and ident_ok and perm != identity and expected:
                     sig = 'resolve/ez-depends-on-fragment-order/' + cls
                 else:
                     sig = 'resolve/%s/%s/%s' % (clause, 'construction-order' if perm == identity else 'other-order', cls)
